@@ -85,6 +85,8 @@ package cmd
 //@     invariant [slot_range] j >= 0 && totaltrees >= 1 && len(outtrees) == numtrees
 //@     step [one_draw_per_slot_among_all_seen] ghost(rand_count) == atHead(ghost(rand_count)) + 1 && ghost(rand_range) == totaltrees
 //@     step [slot_replaced_iff_draw_is_zero] (ghost(rand_last) == 0 ? outtrees[j] == t.Tree : outtrees[j] == atHead(outtrees[j])) && (forall k int :: 0 <= k && k < numtrees && k != j ==> outtrees[k] == atHead(outtrees[k]))
+//@   loop 4
+//@     complete [all_iterations_no_early_exit]
 
 // ---------------------------------------------------------------------------
 // compare trees (property C11): every result channel that is drained is non-nil
@@ -108,6 +110,16 @@ package cmd
 //@   loop 5
 //@     complete [all_iterations_no_early_exit]
 //@     step [a_specific_branch_adds_its_length_and_its_square] next(wrf) == wrf + length && next(kf) == kf + mathpow(length, 2.0)
+//@   loop 2
+//@     complete [all_iterations_no_early_exit]
+//@   loop 4
+//@     complete [all_iterations_no_early_exit]
+//@   loop 7
+//@     complete [all_iterations_no_early_exit]
+//@   loop 9
+//@     complete [all_iterations_no_early_exit]
+//@   loop 11
+//@     complete [all_iterations_no_early_exit]
 
 // ---------------------------------------------------------------------------
 // Seeding (properties C18, C19): before every command the global generator is seeded exactly once, with the
@@ -215,3 +227,187 @@ package cmd
 //@   loop 1
 //@     complete [all_iterations_no_early_exit]
 //@     step [every_tree_read_is_edited_once_and_written_once] ghost(ncalls_RemoveSingleNodes) == atHead(ghost(ncalls_RemoveSingleNodes)) + 1 && ghost(ncalls_WriteString) == atHead(ghost(ncalls_WriteString)) + 1
+
+// ---------------------------------------------------------------------------
+// The generator commands (property C16): the requested number of trees is generated, each with the requested size
+// (depth for the balanced generator) and rootedness, each value in its own position, and each tree is written on a
+// line of its own; a generator error stops the command with that error
+// ---------------------------------------------------------------------------
+//@ func cmd.uniformTree
+//@   flag noframe
+//@   flag countcalls
+//@   call tree.RandomUniformBinaryTree [every_tree_has_the_requested_size_and_rootedness] a0 == nbtips && a1 == rooted
+//@   call (*tree.Tree).Newick [the_tree_written_is_the_tree_just_generated] a0 == t && ghost(ncalls_RandomUniformBinaryTree) == atHead(ghost(ncalls_RandomUniformBinaryTree)) + 1
+//@   return@L1 [a_generator_error_stops_the_command_with_that_error] result != nil && result == err
+//@   loop 1
+//@     invariant [trees_so_far] 0 <= i && (nbtrees >= 0 ==> i <= nbtrees) && ghost(ncalls_RandomUniformBinaryTree) == old(ghost(ncalls_RandomUniformBinaryTree)) + i
+//@     step [one_tree_generated_and_written_per_round] next(i) == i + 1 && ghost(ncalls_RandomUniformBinaryTree) == atHead(ghost(ncalls_RandomUniformBinaryTree)) + 1 && ghost(ncalls_WriteString) == atHead(ghost(ncalls_WriteString)) + 1
+//@   return@L0 [as_many_trees_as_requested_when_no_error] result == nil ==> (nbtrees >= 0 ==> ghost(ncalls_RandomUniformBinaryTree) == old(ghost(ncalls_RandomUniformBinaryTree)) + nbtrees)
+//@ func cmd.uniformtreeCmd.RunE
+//@   flag noframe
+//@   call cmd.uniformTree [the_options_are_passed_each_in_its_own_position] a0 == generateNbTrees && a1 == generateNbTips && a2 == generateOutputfile && a3 == generateRooted
+
+//@ func cmd.yuleTree
+//@   flag noframe
+//@   flag countcalls
+//@   call tree.RandomYuleBinaryTree [every_tree_has_the_requested_size_and_rootedness] a0 == nbtips && a1 == rooted
+//@   call (*tree.Tree).Newick [the_tree_written_is_the_tree_just_generated] a0 == t && ghost(ncalls_RandomYuleBinaryTree) == atHead(ghost(ncalls_RandomYuleBinaryTree)) + 1
+//@   return@L1 [a_generator_error_stops_the_command_with_that_error] result != nil && result == err
+//@   loop 1
+//@     invariant [trees_so_far] 0 <= i && (nbtrees >= 0 ==> i <= nbtrees) && ghost(ncalls_RandomYuleBinaryTree) == old(ghost(ncalls_RandomYuleBinaryTree)) + i
+//@     step [one_tree_generated_and_written_per_round] next(i) == i + 1 && ghost(ncalls_RandomYuleBinaryTree) == atHead(ghost(ncalls_RandomYuleBinaryTree)) + 1 && ghost(ncalls_WriteString) == atHead(ghost(ncalls_WriteString)) + 1
+//@   return@L0 [as_many_trees_as_requested_when_no_error] result == nil ==> (nbtrees >= 0 ==> ghost(ncalls_RandomYuleBinaryTree) == old(ghost(ncalls_RandomYuleBinaryTree)) + nbtrees)
+//@ func cmd.yuletreeCmd.Run
+//@   flag noframe
+//@   call cmd.yuleTree [the_options_are_passed_each_in_its_own_position] a0 == generateNbTrees && a1 == generateNbTips && a2 == generateOutputfile && a3 == generateRooted
+
+//@ func cmd.balancedTree
+//@   flag noframe
+//@   flag countcalls
+//@   call tree.RandomBalancedBinaryTree [every_tree_has_the_requested_size_and_rootedness] a0 == depth && a1 == rooted
+//@   call (*tree.Tree).Newick [the_tree_written_is_the_tree_just_generated] a0 == t && ghost(ncalls_RandomBalancedBinaryTree) == atHead(ghost(ncalls_RandomBalancedBinaryTree)) + 1
+//@   return@L1 [a_generator_error_stops_the_command_with_that_error] result != nil && result == err
+//@   loop 1
+//@     invariant [trees_so_far] 0 <= i && (nbtrees >= 0 ==> i <= nbtrees) && ghost(ncalls_RandomBalancedBinaryTree) == old(ghost(ncalls_RandomBalancedBinaryTree)) + i
+//@     step [one_tree_generated_and_written_per_round] next(i) == i + 1 && ghost(ncalls_RandomBalancedBinaryTree) == atHead(ghost(ncalls_RandomBalancedBinaryTree)) + 1 && ghost(ncalls_WriteString) == atHead(ghost(ncalls_WriteString)) + 1
+//@   return@L0 [as_many_trees_as_requested_when_no_error] result == nil ==> (nbtrees >= 0 ==> ghost(ncalls_RandomBalancedBinaryTree) == old(ghost(ncalls_RandomBalancedBinaryTree)) + nbtrees)
+//@ func cmd.balancedtreeCmd.RunE
+//@   flag noframe
+//@   call cmd.balancedTree [the_options_are_passed_each_in_its_own_position] a0 == generateNbTrees && a1 == generateDepth && a2 == generateOutputfile && a3 == generateRooted
+
+//@ func cmd.caterpilarTree
+//@   flag noframe
+//@   flag countcalls
+//@   call tree.RandomCaterpillarBinaryTree [every_tree_has_the_requested_size_and_rootedness] a0 == nbtips && a1 == rooted
+//@   call (*tree.Tree).Newick [the_tree_written_is_the_tree_just_generated] a0 == t && ghost(ncalls_RandomCaterpillarBinaryTree) == atHead(ghost(ncalls_RandomCaterpillarBinaryTree)) + 1
+//@   return@L1 [a_generator_error_stops_the_command_with_that_error] result != nil && result == err
+//@   loop 1
+//@     invariant [trees_so_far] 0 <= i && (nbtrees >= 0 ==> i <= nbtrees) && ghost(ncalls_RandomCaterpillarBinaryTree) == old(ghost(ncalls_RandomCaterpillarBinaryTree)) + i
+//@     step [one_tree_generated_and_written_per_round] next(i) == i + 1 && ghost(ncalls_RandomCaterpillarBinaryTree) == atHead(ghost(ncalls_RandomCaterpillarBinaryTree)) + 1 && ghost(ncalls_WriteString) == atHead(ghost(ncalls_WriteString)) + 1
+//@   return@L0 [as_many_trees_as_requested_when_no_error] result == nil ==> (nbtrees >= 0 ==> ghost(ncalls_RandomCaterpillarBinaryTree) == old(ghost(ncalls_RandomCaterpillarBinaryTree)) + nbtrees)
+//@ func cmd.caterpilartreeCmd.RunE
+//@   flag noframe
+//@   call cmd.caterpilarTree [the_options_are_passed_each_in_its_own_position] a0 == generateNbTrees && a1 == generateNbTips && a2 == generateOutputfile && a3 == generateRooted
+
+//@ func cmd.starTree
+//@   flag noframe
+//@   flag countcalls
+//@   call tree.StarTree [every_star_has_the_requested_number_of_tips] a0 == nbtips
+//@   call (*tree.Edge).SetLength [every_branch_of_the_star_just_generated_gets_a_drawn_length] a0 == e
+//@   call (*tree.Tree).Edges [the_branches_of_the_star_just_generated] a0 == t
+//@   call (*tree.Tree).Newick [the_tree_written_is_the_tree_just_generated] a0 == t && ghost(ncalls_StarTree) == atHead(ghost(ncalls_StarTree)) + 1
+//@   loop 1
+//@     step [one_tree_generated_and_written_per_round] next(i) == i + 1 && ghost(ncalls_StarTree) == atHead(ghost(ncalls_StarTree)) + 1 && ghost(ncalls_WriteString) == atHead(ghost(ncalls_WriteString)) + 1
+//@   loop 2
+//@     step [every_branch_gets_a_length] ghost(ncalls_SetLength) == atHead(ghost(ncalls_SetLength)) + 1
+//@ func cmd.startreeCmd.Run
+//@   flag noframe
+//@   call cmd.starTree [the_options_are_passed_each_in_its_own_position] a0 == generateNbTrees && a1 == generateNbTips && a2 == generateOutputfile
+//@ func cmd.topologiesCmd.RunE
+//@   flag noframe
+//@   flag countcalls
+//@   call tree.AllTopologies [the_number_of_tips_the_rootedness_and_the_names_of_the_input_tree_when_there_is_one] a0 == generateNbTips && a1 == generateRooted && a2 == tipNames && (old(generateIntreeFile) != "none" ==> generateNbTips == len(tipNames))
+//@   call (*tree.Tree).Newick [every_topology_is_written] a0 == t
+//@   loop 1
+//@     step [one_line_per_topology] ghost(ncalls_WriteString) == atHead(ghost(ncalls_WriteString)) + 1 && ghost(ncalls_Newick) == atHead(ghost(ncalls_Newick)) + 1
+
+// ---------------------------------------------------------------------------
+// One tree in, one edit, one tree out (properties C05, C20, C09, C14): every tree read without error is edited by the
+// command's own operation, with the options as given, and written on a line of its own; the first erroneous tree (or
+// failing edit) stops the command with that error
+// ---------------------------------------------------------------------------
+//@ func cmd.unrootCmd.RunE
+//@   flag noframe
+//@   flag countcalls
+//@   recv treechan [message_is_a_tree_or_an_error] msg.Err == nil ==> msg.Tree != nil
+//@   call (*tree.Tree).UnRoot [the_tree_just_read] a0 == t.Tree && t.Err == nil
+//@   call (*tree.Tree).Newick [the_tree_written_is_the_tree_just_edited] a0 == t.Tree && ghost(ncalls_UnRoot) == atHead(ghost(ncalls_UnRoot)) + 1
+//@   return@L1 [an_erroneous_tree_stops_the_command_with_its_error] result == t.Err && result != nil
+//@   loop 1
+//@     step [every_tree_read_is_edited_once_and_written_once] ghost(ncalls_UnRoot) == atHead(ghost(ncalls_UnRoot)) + 1 && ghost(ncalls_WriteString) == atHead(ghost(ncalls_WriteString)) + 1
+
+//@ func cmd.shuffletipsCmd.RunE
+//@   flag noframe
+//@   flag countcalls
+//@   recv treechan [message_is_a_tree_or_an_error] msg.Err == nil ==> msg.Tree != nil
+//@   call (*tree.Tree).ShuffleTips [the_tree_just_read] a0 == t.Tree && t.Err == nil
+//@   call (*tree.Tree).Newick [the_tree_written_is_the_tree_just_edited] a0 == t.Tree && ghost(ncalls_ShuffleTips) == atHead(ghost(ncalls_ShuffleTips)) + 1
+//@   return@L1 [an_erroneous_tree_stops_the_command_with_its_error] result == t.Err && result != nil
+//@   loop 1
+//@     step [every_tree_read_is_edited_once_and_written_once] ghost(ncalls_ShuffleTips) == atHead(ghost(ncalls_ShuffleTips)) + 1 && ghost(ncalls_WriteString) == atHead(ghost(ncalls_WriteString)) + 1
+
+//@ func cmd.rotateRandCmd.RunE
+//@   flag noframe
+//@   flag countcalls
+//@   recv treechan [message_is_a_tree_or_an_error] msg.Err == nil ==> msg.Tree != nil
+//@   call (*tree.Tree).RotateInternalNodes [the_tree_just_read] a0 == t.Tree && t.Err == nil
+//@   call (*tree.Tree).Newick [the_tree_written_is_the_tree_just_edited] a0 == t.Tree && ghost(ncalls_RotateInternalNodes) == atHead(ghost(ncalls_RotateInternalNodes)) + 1
+//@   return@L1 [an_erroneous_tree_stops_the_command_with_its_error] result == t.Err && result != nil
+//@   loop 1
+//@     step [every_tree_read_is_edited_once_and_written_once] ghost(ncalls_RotateInternalNodes) == atHead(ghost(ncalls_RotateInternalNodes)) + 1 && ghost(ncalls_WriteString) == atHead(ghost(ncalls_WriteString)) + 1
+
+//@ func cmd.rotateSortCmd.RunE
+//@   flag noframe
+//@   flag countcalls
+//@   recv treechan [message_is_a_tree_or_an_error] msg.Err == nil ==> msg.Tree != nil
+//@   call (*tree.Tree).SortNeighborsByTips [the_tree_just_read] a0 == t.Tree && t.Err == nil
+//@   call (*tree.Tree).Newick [the_tree_written_is_the_tree_just_edited] a0 == t.Tree && ghost(ncalls_SortNeighborsByTips) == atHead(ghost(ncalls_SortNeighborsByTips)) + 1
+//@   return@L1 [an_erroneous_tree_stops_the_command_with_its_error] result == t.Err && result != nil
+//@   loop 1
+//@     step [every_tree_read_is_edited_once_and_written_once] ghost(ncalls_SortNeighborsByTips) == atHead(ghost(ncalls_SortNeighborsByTips)) + 1 && ghost(ncalls_WriteString) == atHead(ghost(ncalls_WriteString)) + 1
+
+//@ func cmd.midpointCmd.RunE
+//@   flag noframe
+//@   flag countcalls
+//@   recv treechan [message_is_a_tree_or_an_error] msg.Err == nil ==> msg.Tree != nil
+//@   call (*tree.Tree).RerootMidPoint [the_tree_just_read] a0 == t.Tree && t.Err == nil
+//@   call (*tree.Tree).Newick [only_a_successfully_rerooted_tree_is_written] a0 == t.Tree && err == nil && ghost(ncalls_RerootMidPoint) == atHead(ghost(ncalls_RerootMidPoint)) + 1
+//@   return@L1 [an_erroneous_tree_or_a_failing_rerooting_stops_the_command_with_that_error] result != nil
+//@   loop 1
+//@     step [every_tree_read_is_rerooted_once_and_written_once] ghost(ncalls_RerootMidPoint) == atHead(ghost(ncalls_RerootMidPoint)) + 1 && ghost(ncalls_WriteString) == atHead(ghost(ncalls_WriteString)) + 1
+
+//@ func cmd.outgroupCmd.RunE
+//@   flag noframe
+//@   flag countcalls
+//@   recv treechan [message_is_a_tree_or_an_error] msg.Err == nil ==> msg.Tree != nil
+//@   call (*tree.Tree).RerootOutGroup [the_tree_just_read_with_the_two_switches_each_in_its_place_and_the_group_from_the_file_first_else_from_the_arguments] a0 == t.Tree && t.Err == nil && a1 == removeoutgroup && a2 == rerootstrict && a3 == tips && (tipfile == "none" ==> tips == args && len(args) > 0)
+//@   call cmd.parseTipsFile [the_group_file_is_read_only_when_one_is_given] a0 == tipfile && tipfile != "none"
+//@   call (*tree.Tree).Newick [only_a_successfully_rerooted_tree_is_written] a0 == t.Tree && err == nil && ghost(ncalls_RerootOutGroup) == atHead(ghost(ncalls_RerootOutGroup)) + 1
+//@   return@L1 [an_erroneous_tree_or_a_failing_rerooting_stops_the_command_with_that_error] result != nil
+//@   loop 1
+//@     step [every_tree_read_is_rerooted_once_and_written_once] ghost(ncalls_RerootOutGroup) == atHead(ghost(ncalls_RerootOutGroup)) + 1 && ghost(ncalls_WriteString) == atHead(ghost(ncalls_WriteString)) + 1
+
+//@ func cmd.consensusCmd.RunE
+//@   flag noframe
+//@   flag countcalls
+//@   call tree.Consensus [the_trees_read_with_the_frequency_threshold_as_given] a0 == treechan && a1 == cutoff
+//@   call (*tree.Tree).Newick [the_tree_written_is_the_consensus_and_only_when_there_is_one] a0 == consensus && err == nil && ghost(ncalls_Consensus) == old(ghost(ncalls_Consensus)) + 1
+
+//@ func cmd.matrixCmd.RunE
+//@   flag noframe
+//@   flag countcalls
+//@   recv treechan [message_is_a_tree_or_an_error] msg.Err == nil ==> msg.Tree != nil
+//@   call tree.AvgDistanceMatrix [the_average_over_all_trees_with_the_metric_the_option_names] matrixavg && a1 == treechan && a0 == (metric == "brlen" ? 0 : (metric == "boot" ? 1 : 2)) && (metric == "brlen" || metric == "boot" || metric == "none")
+//@   call (*tree.Tree).ToDistanceMatrix [one_matrix_per_tree_with_the_metric_the_option_names] !matrixavg && a0 == t.Tree && a1 == (metric == "brlen" ? 0 : (metric == "boot" ? 1 : 2)) && (metric == "brlen" || metric == "boot" || metric == "none")
+
+// ---------------------------------------------------------------------------
+// The bootstrap support commands (property C10): the reference tree and the bootstrap trees are read from the files
+// named by their own options; the computation receives them with the number of threads and the switches each in its
+// own position; the reference tree is written only after a successful computation
+// ---------------------------------------------------------------------------
+//@ func cmd.classical
+//@   flag noframe
+//@   flag countcalls
+//@   call cmd.readTree [the_reference_tree_comes_from_the_reference_option] a0 == supportIntree
+//@   call cmd.readTrees [the_bootstrap_trees_come_from_the_bootstrap_option] a0 == supportBoottrees
+//@   call support.FBP [reference_tree_bootstrap_trees_and_threads_each_in_its_place] a0 == refTree && a1 == boottreechan && a2 == rootCpus && a3 == nil
+//@   call (*tree.Tree).Newick [the_reference_tree_is_written_only_after_a_successful_computation] a0 == refTree && err == nil && ghost(ncalls_FBP) == old(ghost(ncalls_FBP)) + 1
+
+//@ func cmd.booster
+//@   flag noframe
+//@   flag countcalls
+//@   call cmd.readTree [the_reference_tree_comes_from_the_reference_option] a0 == supportIntree
+//@   call cmd.readTrees [the_bootstrap_trees_come_from_the_bootstrap_option] a0 == supportBoottrees
+//@   call (*tree.Tree).ReinitIndexes [the_reference_tree_is_indexed_before_the_computation] a0 == refTree && ghost(ncalls_TBE) == old(ghost(ncalls_TBE))
+//@   call support.TBE [reference_tree_bootstrap_trees_threads_and_the_switches_each_in_its_place] a0 == refTree && a1 == boottreechan && a2 == rootCpus && a3 == (rawSupportOutputFile != "none") && a4 == movedtaxa && a5 == taxperbranches && a6 == boosterdistcutoff && a7 == supportLog && a8 == nil && ghost(ncalls_ReinitIndexes) == old(ghost(ncalls_ReinitIndexes)) + 1
+//@   call (*tree.Tree).Newick [trees_are_written_only_after_a_successful_computation_the_raw_one_only_when_asked_for] err == nil && ghost(ncalls_TBE) == old(ghost(ncalls_TBE)) + 1 && (a0 == refTree || (a0 == rawtree && rawSupportOutputFile != "none"))
